@@ -421,7 +421,8 @@ def check_c08(exe, tier, seed, verdict):
     d = ROOT + "/rt"
 
     def add(cid, lines, cnt):
-        cases.append((cid, ["mkdir %s" % hx(d)] + lines))
+        # (a chunk of the exhaustive sweep runs for minutes: the driver's 20 s watchdog is for hangs of single calls)
+        cases.append((cid, ["watchdog 2400", "mkdir %s" % hx(d)] + lines))
         expect[cid] = cnt
     for T in ("Int", "UInt", "Float"):
         if tier == "thorough":
